@@ -663,6 +663,42 @@ def _attr_chain(e):
     return (e.id, names) if isinstance(e, ast.Name) and names else None
 
 
+def _pure_ctor(c):
+    """`Intercept()`: a constructor of a program class called without arguments creates a fresh value object"""
+    return isinstance(c, ast.Call) and isinstance(c.func, ast.Name) and c.func.id[:1].isupper() and not c.args and not c.keywords
+
+
+def _pure_read(e):
+    """(names, attribute names) read by an expression that only reads: attribute chains, constants, fresh value objects,
+    comparisons / membership tests and boolean combinations of those; None otherwise"""
+    if isinstance(e, ast.Constant):
+        return set(), set()
+    if isinstance(e, ast.Name):
+        return {e.id}, set()
+    if isinstance(e, ast.Attribute):
+        r = _pure_read(e.value)
+        return None if r is None else (r[0], r[1] | {e.attr})
+    if _pure_ctor(e):
+        return set(), set()
+    parts = None
+    if isinstance(e, ast.Compare) and all(isinstance(o, (ast.In, ast.NotIn, ast.Is, ast.IsNot, ast.Eq, ast.NotEq)) for o in e.ops):
+        parts = [e.left] + list(e.comparators)
+    elif isinstance(e, ast.BoolOp):
+        parts = list(e.values)
+    elif isinstance(e, ast.UnaryOp) and isinstance(e.op, ast.Not):
+        parts = [e.operand]
+    if parts is None:
+        return None
+    names, attrs = set(), set()
+    for p_ in parts:
+        r = _pure_read(p_)
+        if r is None:
+            return None
+        names |= r[0]
+        attrs |= r[1]
+    return names, attrs
+
+
 def _subst_attr_chain(fnode):
     """t = a.b.c used several times in the straight-line statements that follow: substituted when nothing in between can
     re-bind a, .b or .c (no calls other than pure builtins, no store to those attribute names or to a)"""
@@ -677,6 +713,10 @@ def _subst_attr_chain(fnode):
                 if not (isinstance(s, ast.Assign) and len(s.targets) == 1 and isinstance(s.targets[0], ast.Name)):
                     continue
                 ch = _attr_chain(s.value)
+                if ch is None:
+                    pr = _pure_read(s.value)
+                    if pr is not None and pr[1]:
+                        ch = ("|".join(sorted(pr[0])), sorted(pr[1]), sorted(pr[0]))
                 name = s.targets[0].id
                 if ch is None or name in params or len(_stores(fnode, name)) != 1:
                     continue
@@ -709,14 +749,14 @@ def _subst_attr_chain(fnode):
                     return any((i_, "b") in A and (i_, "e") in B or (i_, "e") in A and (i_, "b") in B for i_ in {x_[0] for x_ in A | B})
 
                 for k, x in enumerate(order[:lastpos]):
-                    if isinstance(x, ast.Call) and not (isinstance(x.func, ast.Name) and x.func.id in PURE_BUILTINS):
+                    if isinstance(x, ast.Call) and not (isinstance(x.func, ast.Name) and x.func.id in PURE_BUILTINS) and not _pure_ctor(x):
                         # a call that completes before some later use of the temporary
                         inside = {id(y) for y in ast.walk(x)}
                         if any(id(order[p]) not in inside and not exclusive(x, order[p]) for p in upos if p > k):
                             ok = False
                     if isinstance(x, ast.Attribute) and isinstance(x.ctx, (ast.Store, ast.Del)) and x.attr in ch[1]:
                         ok = False
-                    if isinstance(x, ast.Name) and isinstance(x.ctx, (ast.Store, ast.Del)) and x.id == ch[0]:
+                    if isinstance(x, ast.Name) and isinstance(x.ctx, (ast.Store, ast.Del)) and x.id in (ch[2] if len(ch) > 2 else [ch[0]]):
                         ok = False
                     if isinstance(x, (ast.For, ast.While, ast.Lambda, ast.ListComp, ast.GeneratorExp, ast.SetComp, ast.DictComp, ast.Try, ast.With)):
                         ok = False
